@@ -1,5 +1,6 @@
 import Driver.Proto
 import NutsModel.Facts.C15
+import NutsModel.C15.Streams
 open Lean Nuts.Drv
 
 /-- C15 adds the op that depends on C15's regenerated facts (the TLS server's ClientAuth mode) -/
@@ -24,6 +25,36 @@ def step15 (d : Nuts.Drv.Proto.DSt) (j : Json) : Nuts.Drv.Proto.DSt × List Stri
     let pre : Option String := if jStr j "pre" == "victim" then some "victim.example.org" else none
     let seen := (Nuts.C15.interceptStreams pre streams).map (fun o => o.getD "refused")
     (d, [s!"offloadseq [{String.intercalate " " seen}]"])
+  | "inbound" =>
+    -- a history of inbound streams (handleInboundStream) and stream ends on one connection manager
+    let tab (k : String) (x : String) : Option String :=
+      (jArr j k).findSome? (fun p => match p with
+        | .arr a => if (a[0]?.bind (fun v => v.getStr?.toOption)) == some x then a[1]?.bind (fun v => v.getStr?.toOption) else none
+        | _ => none)
+    let E : Nuts.C15.InEnv := {
+      kind := if jStr j "kind" == "dummy" then .dummy else .tls,
+      auth := { parseHost := fun ep => some ep, verifyHostname := fun dns h => dns.contains h },
+      parseDID := tab "didtab", resolve := tab "endpoints" }
+    let plus (l : List String) : String := String.intercalate "+" l
+    let showConn (c : Nuts.C15.Conn) : String :=
+      let dns := plus (c.cert.getD ["-"])
+      let sids := plus (c.streams.map (fun s => toString s.sid))
+      s!"{c.id}~{c.peer.did}~{c.peer.authenticated}~{dns}~{sids}"
+    let snap (cs : List Nuts.C15.Conn) : String := String.intercalate "," (cs.map showConn)
+    let (_, outs) := (jArr j "events").foldl (fun (acc : List Nuts.C15.Conn × List String) ev =>
+      let (cs, outs) := acc
+      if jStr ev "e" == "close" then
+        let cs' := Nuts.C15.closeStream cs (jNat ev "sid")
+        (cs', outs ++ [s!"closed|{snap cs'}"])
+      else
+        let crt : Option (List String) := if jBool ev "hascert" then some (jStrs ev "cert") else none
+        let s : Nuts.C15.StreamIn := ⟨jNat ev "sid", jStrs ev "pids", jStrs ev "dids", crt, jStr ev "proto"⟩
+        let (cs', r) := Nuts.C15.handleInbound E cs s
+        let rs := match r with
+          | .errMetadata => "meta" | .errAuth => "auth" | .alreadyConnected => "already" | .joined i => s!"joined{i}"
+        (cs', outs ++ [s!"{rs}|{snap cs'}"])) (([] : List Nuts.C15.Conn), ([] : List String))
+    let body := String.intercalate " ; " outs
+    (d, [s!"inbound {body}"])
   | "createtx" =>
     let parts : List Nuts.C15.KeyRes := (jStrs j "parts").map (fun x => match x with
       | "ok" => .ok | "deactivated" => .deactivated | "badkey" => .badKey | _ => .notFound)
